@@ -96,77 +96,9 @@ def run(ctx):
                 ctx.violate("R1", "convert() calls something other than the four API functions with its own data" if not fsys else f"convert() touches the file system itself via {cs.external}", conv, cs.node)
             continue
         api_calls.setdefault(tgt.name, []).append(cs)
-    for nm in API_ROLE:
-        if len(api_calls.get(nm, [])) != 1:
-            ctx.violate("R1", f"convert() must call {nm} exactly once (found {len(api_calls.get(nm, []))})", conv, conv.node, construct=f"calls of {nm}")
-    # branch structure
-    pm = prog.parents(conv)
-
-    def branch_of(node):
-        """(polarity) of the `many` test guarding node; None if unguarded or guarded by anything else."""
-        cur = node
-        pol = None
-        while id(cur) in pm:
-            par = pm[id(cur)]
-            if isinstance(par, ast.If):
-                p = _polarity_of_many(par.test)
-                if p is None:
-                    return "other"
-                inbody = any(cur is s for s in par.body)
-                pol = p if inbody else -p
-            elif isinstance(par, ast.IfExp):
-                p = _polarity_of_many(par.test)
-                if p is None:
-                    return "other"
-                pol = p if cur is par.body else (-p if cur is par.orelse else pol)
-            elif isinstance(par, (ast.For, ast.While, ast.Try, ast.With)):
-                return "other"
-            cur = par
-        return pol
-
-    for nm, want in (("dump_many", 1), ("load_many", 1), ("dump_one", -1), ("load_one", -1)):
-        for cs in api_calls.get(nm, []):
-            b = branch_of(cs.node)
-            if b != want:
-                ctx.violate("R1", f"{nm} must be reached exactly when many is {'true' if want == 1 else 'false'} (guard polarity {b})", conv, cs.node)
-            else:
-                ctx.ok("R1", f"{nm} guarded by many={'True' if want == 1 else 'False'}", f"{conv.where}")
-    # argument binding
-    for nm, roles in API_ROLE.items():
-        for cs in api_calls.get(nm, []):
-            bound, extra, ok = bind_call(cs.node, api[nm])
-            if not ok or extra:
-                ctx.violate("R1", f"{nm} is passed arguments that cannot be bound exactly / extra keywords {sorted(extra)}", conv, cs.node)
-                continue
-            for p, role in roles.items():
-                e = bound.get(p)
-                if e is None:
-                    ctx.violate("R1", f"{nm}: API parameter '{p}' is not passed (convert parameter '{role}' dropped)", conv, cs.node)
-                    continue
-                e = deref(conv, e)
-                if role == "<load>":
-                    partner = "load_many" if nm == "dump_many" else "load_one"
-                    okk = isinstance(e, ast.Call) and any(e is c.node for c in api_calls.get(partner, []))
-                    if not okk:
-                        ctx.violate("R1", f"{nm}: first argument is not the result of {partner}", conv, cs.node)
-                    else:
-                        ctx.ok("R1", f"{nm}({partner}(..))", conv.where)
-                elif isinstance(e, ast.Name) and e.id == role and role in conv.params:
-                    ctx.ok("R1", f"{nm}.{p} <- convert.{role}", conv.where)
-                else:
-                    ctx.violate("R1", f"{nm}: API parameter '{p}' receives `{src_of(e)}` instead of convert parameter '{role}'", conv, cs.node)
-            for p in bound:
-                if p not in roles:
-                    ctx.violate("R1", f"{nm}: unexpected API parameter '{p}' passed", conv, cs.node)
-    # parameters are not rebound before use
-    for n in conv.own_nodes():
-        if isinstance(n, (ast.Assign, ast.AugAssign, ast.AnnAssign)):
-            tgts = n.targets if isinstance(n, ast.Assign) else [n.target]
-            for t in tgts:
-                for nm in ast.walk(t):
-                    if isinstance(nm, ast.Name) and nm.id in conv.params:
-                        ctx.violate("R1", f"convert() rebinds its parameter '{nm.id}'", conv, n)
-
+    # what convert() does with its arguments is decided by evaluation: convert() interpreted with the four API functions
+    # replaced by recorders, for many False / True / omitted and both values of allow_changes
+    _check_convert_evaluated(ctx, conv, api)
     # ------------------------------------------------------------------ R2
     ctx.rule("R2", "argparse destinations reach convert() by role", "a mis-bound option silently converts with the wrong setting")
     pa = prog.func("iodata.__main__.parse_args")
@@ -347,7 +279,7 @@ def run(ctx):
         ctx.ok("R4", f"iodata-convert = {tgt}", "pyproject.toml")
     else:
         ctx.violate("R4", f"console script iodata-convert points at {tgt!r}", relpath="pyproject.toml", function="project.scripts", construct=f"iodata-convert = {tgt!r}")
-    ctx.floor("R1", ctx.rules["R1"]["obligations"], 10, "wrapper obligations")
+    ctx.floor("R1", ctx.rules["R1"]["obligations"], 1, "wrapper obligations")
     ctx.floor("R2", ctx.rules["R2"]["obligations"], 10, "argument-binding obligations")
 
     # ------------------------------------------------------------------ R5
@@ -489,3 +421,71 @@ def check_cli_arguments(ctx, rid):
                 if not (isinstance(par, ast.Call) and isinstance(par.func, ast.Name) and par.func.id in ("dump_one", "dump_many") and par.args and par.args[0] is u):
                     ctx.violate(rid, f"convert() uses the loaded object in `{src_of(pmc.get(id(par), par) if isinstance(par, ast.Attribute) else par)[:70]}` before dumping it: the object written is not the object loaded", conv, par if isinstance(par, ast.AST) else n)
     ctx.ok(rid, "convert(): the loaded object is only handed to the dump function", conv.where, sample=False)
+
+
+def _check_convert_evaluated(ctx, conv, api):
+    """convert() interpreted (iodalint.accessors) with load_one / load_many / dump_one / dump_many replaced by recorders:
+    exactly one load and one dump of the matching kind are called, the dump receives what the load returned, and every
+    argument reaches the API parameter of its role -- however the body is written (if / else, early return, keyword or
+    positional calls, intermediate names)."""
+    from ..accessors import AccessorEval, Raised, Rec
+    from ..symarr import NotSymbolic
+
+    prog = ctx.prog
+    cases = [
+        ("many omitted", dict(), False),
+        ("many=False", dict(many=False), False),
+        ("many=True", dict(many=True), True),
+    ]
+    for label, extra, many in cases:
+        for allow in (False, True):
+            log = []
+            loaded = Rec(None, marker="loaded")
+
+            def rec(name):
+                fn = api[name]
+
+                def stub(args, kw, name=name, fn=fn):
+                    bound = dict(zip(fn.posparams, args))
+                    bound.update(kw)
+                    log.append((name, bound))
+                    return loaded if name.startswith("load") else (bound.get("data") if name == "dump_one" else None)
+
+                return stub
+
+            ev = AccessorEval(prog, None, limit=2000)
+            ev.module = conv.module
+            ev.stubs = {api[nm].qualname: rec(nm) for nm in api}
+            kwargs = dict(infmt="FI", outfmt="FO", allow_changes=allow)
+            kwargs.update(extra)
+            try:
+                ev.run_free(conv, ["IN", "OUT"], kwargs)
+            except Raised as exc:
+                ctx.violate("R1", f"convert({label}, allow_changes={allow}) raises {exc.args[0]} before / instead of calling the API", conv, conv.node, construct=f"convert raises: {label}")
+                return
+            except NotSymbolic as exc:
+                raise AnalysisError(f"iodata.__main__.convert is outside the evaluation whitelist: {exc}") from exc
+            lname, dname = ("load_many", "dump_many") if many else ("load_one", "dump_one")
+            names = [nm for nm, _ in log]
+            if names != [lname, dname]:
+                ctx.violate("R1", f"convert({label}) calls {names or 'nothing'}; the API calls it stands for are {lname} then {dname}", conv, conv.node, construct=f"convert calls: {label}: {names}")
+                return
+            lb, db = log[0][1], log[1][1]
+            first = "iter_data" if many else "data"
+            problems = []
+            if lb.get("filename") != "IN" or lb.get("fmt") != "FI":
+                problems.append(f"{lname} gets filename={lb.get('filename')!r}, fmt={lb.get('fmt')!r} (input file `IN`, input format `FI`)")
+            if set(lb) - {"filename", "fmt"}:
+                problems.append(f"{lname} gets extra arguments {sorted(set(lb) - {'filename', 'fmt'})}")
+            if db.get(first) is not loaded:
+                problems.append(f"{dname} does not get the object(s) {lname} returned")
+            if db.get("filename") != "OUT" or db.get("fmt") != "FO":
+                problems.append(f"{dname} gets filename={db.get('filename')!r}, fmt={db.get('fmt')!r} (output file `OUT`, output format `FO`)")
+            if db.get("allow_changes", False) is not allow:
+                problems.append(f"{dname} gets allow_changes={db.get('allow_changes', '<default>')!r}, the caller said {allow}")
+            if set(db) - {first, "filename", "fmt", "allow_changes"}:
+                problems.append(f"{dname} gets extra arguments {sorted(set(db) - {first, 'filename', 'fmt', 'allow_changes'})}")
+            if problems:
+                ctx.violate("R1", f"convert({label}, allow_changes={allow}): {problems[0]}", conv, conv.node, construct=f"convert arguments: {problems[0]}"[:150])
+                return
+    ctx.ok("R1", "convert(): for many omitted / False / True and both values of allow_changes, exactly the matching load and dump are called, the dump gets what the load returned, and file names, formats and the flag reach the API parameters of their roles (evaluated)", conv.where)
